@@ -5,7 +5,7 @@ import Mrm.Proofs.Warns
 
 namespace Mrm
 
-/-- C06: on a well-formed running order (unique IDs in the edited container) a schema-shaped
+/-- C06: on a well-formed running order (any container: blank and repeated IDs included) a schema-shaped
     message either raises `MosMergeError`, or succeeds with exactly the documented warnings — one
     per named element that cannot be found at the time it is looked up, one per duplicate story an
     insert skips, in message order, nothing else — and every other named element is applied. -/
